@@ -303,6 +303,81 @@ def check_actions(sc, ctx):
         ctx.nontrivial_case({"args": args})
 
 
+# ----------------------------------------------------------------- retain with linked adapters
+@st.composite
+def retainlinked_case(draw):
+    """'For linked adapters, both adapter sequences are kept': one linked adapter, --action=retain, reads that
+    hold the 5' part and/or the 3' part, each exact or with one edit (substitution, insertion or deletion)."""
+    def part(lo, hi):
+        n = draw(st.integers(lo, hi))
+        return draw(st.text(alphabet="ACGT", min_size=n, max_size=n))
+
+    front, back = part(6, 12), part(6, 12)
+    opt = draw(st.sampled_from(["-a", "-g"]))
+    fa = draw(st.sampled_from(["", "", "^"]))
+    ba = draw(st.sampled_from(["", "", "$"]))
+    freq = draw(st.sampled_from(["", "", ";optional", ";required"]))
+    breq = draw(st.sampled_from(["", "", ";optional", ";required"]))
+    spec = f"lnk={fa}{front}{freq}...{back}{ba}{breq}"
+    e = draw(st.sampled_from([0.1, 0.2, 0.2, 0.34]))
+
+    def edited(s):
+        k = draw(st.integers(0, 3))
+        if k == 0 or not s:
+            return s
+        p = draw(st.integers(0, len(s) - 1))
+        c = draw(st.sampled_from("ACGT"))
+        return {1: s[:p] + c + s[p + 1:], 2: s[:p] + s[p + 1:], 3: s[:p] + c + s[p:]}[k]
+
+    reads = []
+    for i in range(draw(st.integers(1, 4))):
+        shape = draw(st.integers(0, 5))
+        left = "" if fa else draw(st.text(alphabet="ACGT", max_size=5))
+        right = "" if ba else draw(st.text(alphabet="ACGT", max_size=5))
+        mid = draw(st.text(alphabet="ACGT", max_size=8))
+        seq = left + (edited(front) if shape != 4 else "") + mid + (edited(back) if shape != 5 else "") + right
+        reads.append([f"r{i}x", seq, "".join(chr(33 + (7 * j + i) % 40) for j in range(len(seq)))])
+    return {"sub": "retainlinked", "opt": opt, "spec": spec, "e": e, "r1": reads}
+
+
+def check_retainlinked(case, ctx):
+    from cutadapt.parser import make_adapters_from_specifications
+
+    args = [case["opt"], case["spec"], "-e", str(case["e"]), "--action", "retain", "-o", "out.fastq", "in.fastq"]
+    r = cli.run(args, {"in.fastq": cli.fastq(case["r1"])})
+    if r.exit != 0:
+        raise Violation(f"cutadapt failed on {args}: exit={r.exit} {r.errors} {r.tb}")
+    cli.reset_globals()
+    (ad,) = make_adapters_from_specifications(
+        [({"-a": "back", "-g": "front"}[case["opt"]], case["spec"])],
+        dict(max_errors=case["e"], min_overlap=3, read_wildcards=False, adapter_wildcards=True, indels=True))
+    out = r.records("out.fastq")
+    if len(out) != len(case["r1"]):
+        raise Violation(f"{len(out)} records written for {len(case['r1'])} reads ({args})")
+    nt = False
+    for rec, x in zip(case["r1"], out):
+        m = ad.match_to(rec[1])
+        name, s, q = rec
+        if m is None:
+            exp = (s, q)
+        else:
+            f, b = m.front_match, m.back_match
+            start = f.rstart if f is not None else 0
+            stop = (f.rstop if f is not None else 0) + b.rstop if b is not None else len(s)
+            exp = (s[start:stop], q[start:stop])
+            if f is not None and b is not None:
+                nt = True
+                ctx.label("retain-linked:both-parts")
+                if (f.rstop - f.rstart) != (f.astop - f.astart):
+                    ctx.label("retain-linked:indel-in-5'-part")
+        if (x[1], x[2]) != exp:
+            raise Violation(f"--action=retain with linked adapter {case['spec']!r} on {s!r}: got {x[1]!r}/{x[2]!r}, the "
+                            f"interval from the start of the 5' adapter to the end of the 3' adapter is {exp} ({args})",
+                            observed=[x[1], x[2]], expected=list(exp))
+    if nt:
+        ctx.nontrivial_case({"args": args})
+
+
 # ----------------------------------------------------------------- PairedAdapterCutter API
 @st.composite
 def pairapi_case(draw):
@@ -348,6 +423,7 @@ SUBS = {
     "slice": Sub(strategy=lambda tier: slice_case(), check=check_slice),
     "actions": Sub(strategy=lambda tier: actions_case(), check=check_actions),
     "pairapi": Sub(strategy=lambda tier: pairapi_case(), check=check_pairapi),
+    "retainlinked": Sub(strategy=lambda tier: retainlinked_case(), check=check_retainlinked),
 }
 
 
@@ -355,7 +431,9 @@ def plan(tier):
     if tier == "quick":
         return [{"sub": "slice", "kind": "hyp", "examples": 700} for _ in range(8)] + \
                [{"sub": "actions", "kind": "hyp", "examples": 250} for _ in range(5)] + \
-               [{"sub": "pairapi", "kind": "hyp", "examples": 1000} for _ in range(3)]
+               [{"sub": "pairapi", "kind": "hyp", "examples": 1000} for _ in range(3)] + \
+               [{"sub": "retainlinked", "kind": "hyp", "examples": 400} for _ in range(2)]
     return [{"sub": "slice", "kind": "hyp", "examples": 20000} for _ in range(8)] + \
            [{"sub": "actions", "kind": "hyp", "examples": 6000} for _ in range(5)] + \
-           [{"sub": "pairapi", "kind": "hyp", "examples": 25000} for _ in range(3)]
+           [{"sub": "pairapi", "kind": "hyp", "examples": 25000} for _ in range(3)] + \
+           [{"sub": "retainlinked", "kind": "hyp", "examples": 10000} for _ in range(3)]
